@@ -51,6 +51,57 @@ pub fn dispatch(op: &str, toks: &[&str]) -> String {
             let frames = ref_decrypt(&file, PASSWORD).map(|x| x.1.len()).unwrap_or(0);
             format!("frames={} {}", frames, tamper_file::<Vec<u8>>(&file, 0, stride, &data.canon_string()))
         }
+        // crypto_stream_cuts <size> <seed> <stride> : an UNCOMPRESSED save through CryptoWriter (the stream API, no bzip2 in
+        // between) of (Vec<u8> of <size> incompressible bytes, u32, String); cut at every frame boundary +-2, at every
+        // <stride>-th offset and near both ends; each prefix is loaded through CryptoReader. One letter per cut:
+        // e = error, S = same value, D = DIFFERENT value, P = panic.
+        "crypto_stream_cuts" => {
+            let (n, seed, stride) = (toks[0].parse::<usize>().unwrap(), toks[1].parse::<u64>().unwrap(), toks[2].parse::<usize>().unwrap().max(1));
+            let d = ring::digest::digest(&ring::digest::SHA256, PASSWORD.as_bytes());
+            let mut key = [0u8; 32];
+            key.copy_from_slice(d.as_ref());
+            let value = (lcg_bytes(n, seed), 0xDEADBEEFu32, "tail".to_string());
+            let mut file: Vec<u8> = vec![];
+            {
+                let mut cw = CryptoWriter::new(&mut file, key).unwrap();
+                savefile::save_noschema(&mut cw, 0, &value).unwrap();
+                cw.flush().unwrap();
+            }
+            let mut cuts: Vec<usize> = Vec::new();
+            let mut pos = 12;
+            while pos + 8 <= file.len() {
+                let l = u64::from_le_bytes(file[pos..pos + 8].try_into().unwrap()) as usize;
+                for d in 0..5usize {
+                    cuts.push((pos + d).saturating_sub(2));
+                }
+                pos += 8 + l;
+            }
+            cuts.extend((0..file.len()).step_by(stride));
+            cuts.extend(0..40.min(file.len()));
+            cuts.extend(file.len().saturating_sub(40)..file.len());
+            cuts.retain(|&c| c < file.len());
+            cuts.sort();
+            cuts.dedup();
+            let mut classes = String::new();
+            let mut firstbad = String::new();
+            for &c in &cuts {
+                let mut src = &file[..c];
+                let r = std::panic::catch_unwind(std::panic::AssertUnwindSafe(|| {
+                    let mut cr = savefile::CryptoReader::new(&mut src, key)?;
+                    savefile::load_noschema::<(Vec<u8>, u32, String)>(&mut cr, 0)
+                }));
+                let ch = match r {
+                    Err(_) => 'P',
+                    Ok(Ok(v)) => if v == value { 'S' } else { 'D' },
+                    Ok(Err(_)) => 'e',
+                };
+                if (ch == 'D' || ch == 'P') && firstbad.is_empty() {
+                    firstbad = format!("cut@{}of{}", c, file.len());
+                }
+                classes.push(ch);
+            }
+            format!("{} {} {}", file.len(), classes, if firstbad.is_empty() { "-".to_string() } else { firstbad })
+        }
         // crypto_tail_search <n_from> <n_to> <seed> : look for an encrypted save of incompressible Vec<u8> data whose LAST frame
         // holds only a few trailing bytes of the compressed stream; drop that frame (a truncation at a frame boundary) and load
         "crypto_tail_search" => {
